@@ -2,8 +2,10 @@
 // with the scripting engine.  The environment of the model is applied through the server's fault hook,
 // one step per script command received (SCRIPT LOAD, EVAL, EVALSHA and the _RO forms): flush the script
 // cache first, reject the command with a NOSCRIPT / other error, or execute it and kill the connection
-// before the reply.  The scripts write (INCR) and return ARGV[1], or reply with an error, or with a
-// fabricated NOSCRIPT error.  Direct oracle per call: the body ran at most once (engine run log), NoSha
+// before the reply.  The scripts write (INCR; GET for read-only values) and then reply with ARGV[1], with an
+// error, with a fabricated NOSCRIPT / ERR NOSCRIPT error, or with a NON-error reply that merely looks like
+// one: a bulk or status string starting with "NOSCRIPT" / "ERR NOSCRIPT", a string containing it, an integer,
+// an array holding such a string.  Direct oracle per call: the body ran at most once (engine run log), NoSha
 // values never send EVALSHA/SCRIPT LOAD, read-only values only the _RO commands, EVAL only after an
 // EVALSHA answered NOSCRIPT, SCRIPT LOAD (LoadSHA1) only until one succeeded, ExecMulti returns one
 // result per LuaExec in order.
@@ -39,19 +41,22 @@ type Op struct {
 
 type Case struct {
 	Ctor   string `json:"ctor"`   // normal | ro | nosha | ronosha | retryable | load | roload
-	Script string `json:"script"` // ret | err | noscript
+	Script string `json:"script"` // see scriptKinds
 	Ops    []Op   `json:"ops"`
 }
 
 func genCase(r *gen.Rand, i int) any {
 	c := Case{Ctor: gen.Pick(r, []string{"normal", "normal", "ro", "nosha", "ronosha", "retryable", "load", "load", "roload"})}
-	switch x := r.Intn(10); {
-	case x < 7:
+	switch x := r.Intn(20); {
+	case x < 8:
 		c.Script = "ret"
-	case x < 9:
+	case x < 10:
 		c.Script = "err"
+	case x < 12:
+		c.Script = gen.Pick(r, []string{"noscript", "errnoscript"})
 	default:
-		c.Script = "noscript"
+		c.Script = gen.Pick(r, []string{"ok-bulk-noscript", "ok-bulk-errnoscript", "ok-status-noscript", "ok-status-errnoscript",
+			"ok-contains", "ok-int", "ok-array"})
 	}
 	tag := 1
 	n := 1 + r.Size(8, 3)
@@ -90,28 +95,69 @@ func genCase(r *gen.Rand, i int) any {
 
 const site = "lua.go:Exec"
 
+// scriptKinds: what the body replies after its side effect, and the model's body term.
+// Only "noscript" and "errnoscript" reply with an ERROR that the client classifies as NOSCRIPT.
+var scriptKinds = map[string][2]string{
+	"ret":                   {"return ARGV[1]", "(BRet KPlain)"},
+	"err":                   {"return redis.error_reply('ERR boom ' .. ARGV[1])", "(BErr ERedis)"},
+	"noscript":              {"return redis.error_reply('NOSCRIPT fabricated by the script body ' .. ARGV[1])", "(BErr ENoScript)"},
+	"errnoscript":           {"return redis.error_reply('ERR NOSCRIPT fabricated by the script body ' .. ARGV[1])", "(BErr ENoScript)"},
+	"ok-bulk-noscript":      {"return 'NOSCRIPT user data ' .. ARGV[1]", "(BRet KNoScriptText)"},
+	"ok-bulk-errnoscript":   {"return 'ERR NOSCRIPT user data ' .. ARGV[1]", "(BRet KNoScriptText)"},
+	"ok-status-noscript":    {"return redis.status_reply('NOSCRIPT status ' .. ARGV[1])", "(BRet KNoScriptText)"},
+	"ok-status-errnoscript": {"return redis.status_reply('ERR NOSCRIPT status ' .. ARGV[1])", "(BRet KNoScriptText)"},
+	"ok-contains":           {"return 'user data with NOSCRIPT inside ' .. ARGV[1]", "(BRet KPlain)"},
+	"ok-int":                {"return tonumber(ARGV[1])", "(BRet KPlain)"},
+	"ok-array":              {"return {'NOSCRIPT in an array', 'ERR NOSCRIPT too', ARGV[1]}", "(BRet KPlain)"},
+}
+
 func scriptText(kind string, ro bool) string {
 	touch := "redis.call('INCR', KEYS[1])"
 	if ro {
 		touch = "redis.call('GET', KEYS[1])"
 	}
-	switch kind {
-	case "err":
-		return touch + "; return redis.error_reply('ERR boom ' .. ARGV[1])"
-	case "noscript":
-		return touch + "; return redis.error_reply('NOSCRIPT fabricated by the script body ' .. ARGV[1])"
+	return touch + "; " + scriptKinds[kind][0]
+}
+
+// okTerm: a non-error reply as the model sees it: the tag it carries (last number of the text / the integer /
+// the last array element) and whether its text starts with NOSCRIPT after an optional "ERR "
+func okTerm(m rueidis.RedisMessage) string {
+	kind := "KPlain"
+	var text string
+	switch {
+	case m.IsInt64():
+		n, _ := m.AsInt64()
+		return "(ROk " + strconv.FormatInt(n, 10) + " KPlain)"
+	case m.IsArray():
+		arr, _ := m.ToArray()
+		if len(arr) == 0 {
+			return "(ROk 0 KPlain)"
+		}
+		text, _ = arr[len(arr)-1].ToString()
+	default:
+		text, _ = m.ToString()
+		if strings.HasPrefix(strings.TrimPrefix(text, "ERR "), "NOSCRIPT") {
+			kind = "KNoScriptText"
+		}
 	}
-	return touch + "; return ARGV[1]"
+	tag := text
+	if i := strings.LastIndexByte(text, ' '); i >= 0 {
+		tag = text[i+1:]
+	}
+	if _, err := strconv.ParseUint(tag, 10, 64); err != nil {
+		return "(RErr ERedis)" // not a reply any of the scripts can produce
+	}
+	return "(ROk " + tag + " " + kind + ")"
 }
 
 func classify(res rueidis.RedisResult) string {
 	err := res.Error()
 	if err == nil {
-		s, e := res.ToString()
+		m, e := res.ToMessage()
 		if e != nil {
 			return "(RErr ERedis)"
 		}
-		return "(ROk " + s + ")"
+		return okTerm(m)
 	}
 	if re, ok := rueidis.IsRedisErr(err); ok {
 		if re.IsNoScript() {
@@ -157,6 +203,12 @@ func run(ci any) (res obs.Result) {
 			res.Oracle, res.Class = msg, class
 		}
 	}
+	// the double run is the property's headline: it replaces a secondary symptom reported for the same call
+	failFirst := func(class, msg string) {
+		if res.Oracle == "" || res.Class == "eval-without-noscript" {
+			res.Oracle, res.Class = msg, class
+		}
+	}
 	ro := c.Ctor == "ro" || c.Ctor == "ronosha" || c.Ctor == "roload"
 	nosha := c.Ctor == "nosha" || c.Ctor == "ronosha"
 	load := c.Ctor == "load" || c.Ctor == "roload"
@@ -181,13 +233,11 @@ func run(ci any) (res obs.Result) {
 		fail("harness", "unknown ctor")
 		return
 	}
-	bodyTerm := "BRet"
-	switch c.Script {
-	case "err":
-		bodyTerm = "(BErr ERedis)"
-	case "noscript":
-		bodyTerm = "(BErr ENoScript)"
+	if _, ok := scriptKinds[c.Script]; !ok {
+		fail("harness", "unknown script kind "+c.Script)
+		return
 	}
+	bodyTerm := scriptKinds[c.Script][1]
 	// the fault hook consumes the current op's environment
 	var mu sync.Mutex
 	var cur []EnvStep
@@ -254,7 +304,7 @@ func run(ci any) (res obs.Result) {
 				fail("multi-length", fmt.Sprintf("ExecMulti returned %d results for %d LuaExec", len(rs), len(multi)))
 			} else {
 				for i, r := range results {
-					if strings.HasPrefix(r, "(ROk ") && r != "(ROk "+tags[i]+")" {
+					if strings.HasPrefix(r, "(ROk ") && !strings.HasPrefix(r, "(ROk "+tags[i]+" ") {
 						fail("multi-positional", fmt.Sprintf("result %d is %s, the LuaExec carried %s", i, r, tags[i]))
 					}
 				}
@@ -278,7 +328,8 @@ func run(ci any) (res obs.Result) {
 			lost := scriptCmds < len(appliedFault) && appliedFault[scriptCmds] == "lost"
 			mu.Unlock()
 			scriptCmds++
-			isNoScript := e.Reply.T == '-' && strings.HasPrefix(e.Reply.S, "NOSCRIPT")
+			// an ERROR reply with the NOSCRIPT prefix (the client drops a leading "ERR ", as kvrocks sends it)
+			isNoScript := e.Reply.T == '-' && strings.HasPrefix(strings.TrimPrefix(e.Reply.S, "ERR "), "NOSCRIPT")
 			switch kind {
 			case "CScriptLoad":
 				if nosha {
@@ -316,10 +367,13 @@ func run(ci any) (res obs.Result) {
 		for _, t := range tags {
 			if counts[t] > 1 {
 				class := "ran-twice"
-				if c.Script == "noscript" {
-					class = "script-replies-noscript" // the body's own reply is a NOSCRIPT error: known finding
+				switch {
+				case c.Script == "noscript" || c.Script == "errnoscript":
+					class = "script-replies-noscript" // the body's own reply is an ERROR with the NOSCRIPT prefix: known finding
+				case strings.HasPrefix(c.Script, "ok-") || c.Script == "ret":
+					class = "double-run-on-non-error-reply" // a successful reply, whatever its text, must never trigger the EVAL fallback
 				}
-				fail(class, fmt.Sprintf("the script body ran %d times in one Exec (tag %s, script %q)", counts[t], t, c.Script))
+				failFirst(class, fmt.Sprintf("the script body ran %d times in one Exec (tag %s, script %q)", counts[t], t, c.Script))
 			}
 		}
 		trace = append(trace, []any{o, results, seen, counts})
